@@ -7,6 +7,7 @@ package harness
 
 import (
 	"fmt"
+	"strings"
 	"testing"
 )
 
@@ -22,6 +23,22 @@ func TestC13Representation(t *testing.T) {
 	for _, d := range reprDocs {
 		for _, e := range c06Templates {
 			run(t, Case{Property: "C13", Kind: "diff", Expr: e, Doc: d, Extra: map[string]interface{}{"cell": "repr"}})
+			n++
+		}
+	}
+	// call shapes of every size 1..40 (argument stacks, frames): nested, wide, wide with a
+	// nested call late, calls in every member of a list
+	for k := 1; k <= 40; k++ {
+		for _, e := range []string{
+			strings.Repeat("abs(", k) + "`-1`" + strings.Repeat(")", k),
+			"not_null(" + strings.Repeat("missing, ", k) + "abs(`-1`))",
+			"not_null(" + strings.Repeat("abs(`-1`) && missing, ", k) + "`2`)",
+			"[" + strings.Repeat("abs(`-1`), ", k) + "abs(`-2`)]",
+			"merge(" + strings.Repeat("{a: abs(`-1`)}, ", k) + "{b: to_string(`2`)})",
+			strings.Repeat("not_null(missing, ", k) + "abs(`-3`)" + strings.Repeat(")", k),
+			"join('', [" + strings.Repeat("to_string(length(nums)), ", k) + "'x'])",
+		} {
+			run(t, Case{Property: "C13", Kind: "diff", Expr: e, Doc: reprDocs[0], Extra: map[string]interface{}{"cell": "calls"}})
 			n++
 		}
 	}
